@@ -38,6 +38,10 @@ package sonic
 //@   ensures [busy] old(t.state) != stateReady ==> err != nil && invoked(cb) == 0 && t.state == old(t.state) &&
 //@           t.cancelled == old(t.cancelled) && tArmed(t) == old(tArmed(t)) &&
 //@           t.it.poller.pending == old(t.it.poller.pending)
+//@   // a cancellation that the repeating wrapper has not looked at yet is not erased by scheduling:
+//@   // the flag is as it was when the callback runs (inline) or is handed to the internal timer
+//@   assert any call cb: [cancellation-kept] t.cancelled == old(t.cancelled)
+//@   assert any call Set: [cancellation-kept-armed] t.cancelled == old(t.cancelled)
 //@   ensures [immediate] old(t.state) == stateReady && delay <= 0 ==> invoked(cb) == 1
 //@   ensures [armed] old(t.state) == stateReady && delay > 0 && err == nil ==> invoked(cb) == 0 && t.state == stateScheduled && tArmed(t) &&
 //@           t.it.poller.pending == old(t.it.poller.pending) + 1
@@ -72,4 +76,5 @@ package sonic
 //@   prop C04
 //@   requires tInv(t) && cb != nil
 //@   ensures [rejected] repeat <= 0 ==> result != nil && t.state == old(t.state) && tArmed(t) == old(tArmed(t)) && invoked(cb) == 0
-//@   assert call ScheduleOnce: arg1 == repeat && repeat > 0
+//@   // a cancellation made before the repetition starts is not meant for it
+//@   assert call ScheduleOnce: arg1 == repeat && repeat > 0 && (t.state == stateReady ==> !t.cancelled)
